@@ -34,4 +34,10 @@ theorem tie_copyWithResult (s : XSt) (r : Option PR) : Generated.XExecution.copy
   simp only [Generated.XExecution.copyWithResultGen, copyWithResult, optVal, optErr]
   cases r <;> simp
 
+theorem tie_isCanceledFlag (s : XSt) : Generated.XExecution.isCanceledFlagGen s = isCanceledFlag s := by
+  simp only [Generated.XExecution.isCanceledFlagGen, isCanceledFlag]
+  cases s.ctxErr <;> simp
+theorem tie_isHedgeFlag (s : XSt) : Generated.XExecution.isHedgeFlagGen s = isHedgeFlag s := rfl
+theorem tie_lastResult (s : XSt) : Generated.XExecution.lastResultGen s = lastResult s := rfl
+
 end Failsafe.Tie.XExecution
